@@ -216,6 +216,86 @@ theorem rowKeys_single (dts : List DType) (row : List Cell) (c : Nat) :
   simp only [List.filterMap_cons, List.filterMap_nil]
   cases keyOf dts row c <;> rfl
 
+/-! ### `paths` enumerates exactly the declarative join paths -/
+
+theorem joinPath_of_mem_paths (w : World) : ∀ fuel d G steps e,
+    (steps, e) ∈ paths w fuel d G → JoinPath w d G steps e := by
+  intro fuel
+  induction fuel with
+  | zero => intro d G steps e h; simp [paths] at h
+  | succ fuel ih =>
+    intro d G steps e hp
+    rw [paths] at hp
+    cases hds : w[d]? with
+    | none => rw [hds] at hp; simp at hp
+    | some ds =>
+      rw [hds] at hp
+      simp only at hp
+      cases hown : ds.ownMask with
+      | some m =>
+        rw [hown] at hp
+        simp only [List.mem_singleton, Prod.mk.injEq] at hp
+        obtain ⟨rfl, rfl⟩ := hp
+        exact JoinPath.here _ G ds m hds hown
+      | none =>
+        rw [hown] at hp
+        simp only at hp
+        rw [List.mem_flatMap] at hp
+        obtain ⟨j, hj, hp⟩ := hp
+        split at hp
+        · simp at hp
+        · rename_i hskip
+          rw [List.mem_map] at hp
+          obtain ⟨q, hq, heq⟩ := hp
+          simp only [Prod.mk.injEq] at heq
+          obtain ⟨rfl, rfl⟩ := heq
+          exact JoinPath.step d G ds j q.1 q.2 hds hown hj (fun h => hskip (Or.inl h))
+            (fun h => hskip (Or.inr h)) (ih j.other (d :: G) q.1 q.2 hq)
+
+theorem mem_paths_of_joinPath (w : World) (d : Nat) (G : List Nat) (steps : List (Nat × Join)) (e : Nat)
+    (h : JoinPath w d G steps e) : ∀ fuel, steps.length < fuel → (steps, e) ∈ paths w fuel d G := by
+  induction h with
+  | here d G ds m hds hown =>
+    intro fuel hf
+    cases fuel with
+    | zero => simp at hf
+    | succ fuel =>
+      rw [paths]
+      simp only [hds, hown, List.mem_singleton]
+  | step d G ds j steps e hds hown hj hne hng _ ih =>
+    intro fuel hf
+    cases fuel with
+    | zero => simp at hf
+    | succ fuel =>
+      rw [paths]
+      simp only [hds, hown, List.mem_flatMap]
+      refine ⟨j, hj, ?_⟩
+      have hskip : ¬ (j.other = d ∨ j.other ∈ G) := by
+        rintro (h | h)
+        · exact hne h
+        · exact hng h
+      simp only [hskip, if_false, List.mem_map]
+      exact ⟨(steps, e), ih fuel (by simp at hf; omega), rfl⟩
+
+/-- A simple path that avoids `G` and starts at an unflagged dataset is shorter than the number of
+unflagged datasets. -/
+theorem joinPath_length (w : World) (d : Nat) (G : List Nat) (steps : List (Nat × Join)) (e : Nat)
+    (h : JoinPath w d G steps e) : d ∉ G → steps.length < unflagged w G := by
+  induction h with
+  | here d G ds m hds hown =>
+    intro hd
+    have hdl : d < w.length := (List.getElem?_eq_some_iff.mp hds).1
+    have := unflagged_cons w G d hd hdl
+    simp only [List.length_nil]
+    omega
+  | step d G ds j steps e hds hown hj hne hng _ ih =>
+    intro hd
+    have hdl : d < w.length := (List.getElem?_eq_some_iff.mp hds).1
+    have h1 := unflagged_cons w G d hd hdl
+    have h2 := ih (by simp [hne, hng])
+    simp only [List.length_cons]
+    omega
+
 /-! ### chains: a unique admissible path -/
 
 /-- `steps` (ending at the evaluator `e`) is the only way the DFS can go from its first dataset:
